@@ -9,6 +9,7 @@ From Delb.Ns Require Import Namespaces NamespacesFacts Prefixes.
 Notation nsd_name := new_namespace_declaration_name.
 Notation nsd_loop := new_namespace_declaration_loop.
 Notation nsd_bound := new_namespace_declaration_bound.
+Notation nsd_name2 := new_namespace_declaration_name2.
 
 (* ---- the generated fresh-prefix loop, read through view lemmas --------------------------------- *)
 Lemma uint_chars_inj u v : uint_chars u = uint_chars v -> u = v.
@@ -27,6 +28,10 @@ Proof.
 Qed.
 Lemma nsd_name_eq i : nsd_name i = (NS_ ++ py_str_of_N i) ++ [COLON].
 Proof. unfold new_namespace_declaration_name. rewrite <- app_assoc. reflexivity. Qed.
+Lemma nsd_name_name2 i : nsd_name i = nsd_name2 i ++ [COLON].
+Proof. unfold new_namespace_declaration_name, new_namespace_declaration_name2. rewrite <- app_assoc. reflexivity. Qed.
+Lemma nsd_name2_inj i j : nsd_name2 i = nsd_name2 j -> i = j.
+Proof. unfold new_namespace_declaration_name2. intros H. apply app_inv_head in H. apply py_str_of_N_inj. exact H. Qed.
 Lemma nsd_name_inj i j : nsd_name i = nsd_name j -> i = j.
 Proof.
   rewrite !nsd_name_eq. intros H. apply app_inj_tail in H. destruct H as [H _].
@@ -42,77 +47,76 @@ Qed.
 Lemma nsd_name_nonempty i : nsd_name i <> [].
 Proof. rewrite nsd_name_eq. intros H. apply app_eq_nil in H. destruct H as [_ H]. discriminate. Qed.
 
-Lemma nsd_loop_view fuel : forall i values p,
-  nsd_loop fuel i values = Some p -> ~ In p values /\ exists j, p = nsd_name j.
+Lemma nsd_loop_view fuel : forall i values taken p,
+  nsd_loop fuel i values taken = Some p -> ~ In p values /\ exists j, p = nsd_name j /\ ~ In (nsd_name2 j) taken.
 Proof.
-  induction fuel as [|f IH]; cbn [new_namespace_declaration_loop]; intros i values p; [discriminate|].
-  destruct (py_in_str (nsd_name i) values) eqn:E; cbn [negb].
+  induction fuel as [|f IH]; cbn [new_namespace_declaration_loop]; intros i values taken p; [discriminate|].
+  destruct (py_in_str (nsd_name i) values) eqn:E; cbn [negb andb].
   - apply IH.
-  - intros H. injection H as <-. split; [apply py_in_str_nIn; exact E | exists i; reflexivity].
+  - destruct (py_in_str (nsd_name2 i) taken) eqn:E2; cbn [negb]; [apply IH|].
+    intros H. injection H as <-. split; [apply py_in_str_nIn; exact E|]. exists i. split; [reflexivity | apply py_in_str_nIn; exact E2].
 Qed.
-Lemma nsd_loop_none fuel : forall i values,
-  nsd_loop fuel i values = None -> forall k, k < fuel -> In (nsd_name (i + N.of_nat k)%N) values.
+Lemma nsd_loop_none fuel : forall i values taken,
+  nsd_loop fuel i values taken = None ->
+  forall k, k < fuel -> In (nsd_name (i + N.of_nat k)%N) values \/ In (nsd_name2 (i + N.of_nat k)%N) taken.
 Proof.
-  induction fuel as [|f IH]; cbn [new_namespace_declaration_loop]; intros i values H k Hk; [lia|].
-  destruct (py_in_str (nsd_name i) values) eqn:E; cbn [negb] in H; [|discriminate].
+  induction fuel as [|f IH]; cbn [new_namespace_declaration_loop]; intros i values taken H k Hk; [lia|].
   destruct k as [|k].
-  - rewrite N.add_0_r. apply py_in_str_In. exact E.
-  - replace (i + N.of_nat (S k))%N with (N.succ i + N.of_nat k)%N by lia. apply IH; [exact H | lia].
+  - rewrite N.add_0_r. destruct (py_in_str (nsd_name i) values) eqn:E; [left; apply py_in_str_In; exact E|].
+    destruct (py_in_str (nsd_name2 i) taken) eqn:E2; [right; apply py_in_str_In; exact E2|]. cbn in H. discriminate.
+  - replace (i + N.of_nat (S k))%N with (N.succ i + N.of_nat k)%N by lia. apply IH; [|lia].
+    destruct (py_in_str (nsd_name i) values); cbn [negb andb] in H; [exact H|].
+    destruct (py_in_str (nsd_name2 i) taken); cbn [negb] in H; [exact H | discriminate].
 Qed.
-Lemma nsd_loop_total fuel values : length values < fuel -> exists p, nsd_loop fuel 0%N values = Some p.
+Lemma filter_split_length {A} (f : A -> bool) l : length (filter f l) + length (filter (fun x => negb (f x)) l) = length l.
+Proof. induction l as [|x r IH]; cbn; [reflexivity|]. destruct (f x); cbn; lia. Qed.
+Lemma nsd_loop_total fuel values taken :
+  length values + length taken < fuel -> exists p, nsd_loop fuel 0%N values taken = Some p.
 Proof.
-  intros HL. destruct (nsd_loop fuel 0%N values) as [p|] eqn:E; [exists p; reflexivity|]. exfalso.
-  pose proof (nsd_loop_none _ _ _ E) as HN.
-  set (cands := map (fun k => nsd_name (N.of_nat k)) (seq 0 fuel)).
-  assert (ND : NoDup cands).
-  { unfold cands. apply FinFun.Injective_map_NoDup; [|apply seq_NoDup].
-    intros a b Hab. apply nsd_name_inj in Hab. lia. }
-  assert (HI : incl cands values).
-  { intros x Hx. unfold cands in Hx. apply in_map_iff in Hx. destruct Hx as [k [<- Hk]]. apply in_seq in Hk.
-    specialize (HN k). rewrite N.add_0_l in HN. apply HN. lia. }
-  pose proof (NoDup_incl_length ND HI) as HLen. unfold cands in HLen. rewrite map_length, seq_length in HLen. lia.
+  intros HL. destruct (nsd_loop fuel 0%N values taken) as [p|] eqn:E; [exists p; reflexivity|]. exfalso.
+  pose proof (nsd_loop_none _ _ _ _ E) as HN.
+  set (inv := fun k : nat => py_in_str (nsd_name (N.of_nat k)) values).
+  set (A := filter inv (seq 0 fuel)). set (B := filter (fun k => negb (inv k)) (seq 0 fuel)).
+  assert (LA : length A <= length values).
+  { rewrite <- (map_length (fun k => nsd_name (N.of_nat k)) A). apply NoDup_incl_length.
+    - apply FinFun.Injective_map_NoDup; [|apply NoDup_filter; apply seq_NoDup].
+      intros a b Hab. apply nsd_name_inj in Hab. lia.
+    - intros x Hx. apply in_map_iff in Hx. destruct Hx as [k [<- Hk]]. apply filter_In in Hk. destruct Hk as [_ Hk].
+      apply py_in_str_In. exact Hk. }
+  assert (LB : length B <= length taken).
+  { rewrite <- (map_length (fun k => nsd_name2 (N.of_nat k)) B). apply NoDup_incl_length.
+    - apply FinFun.Injective_map_NoDup; [|apply NoDup_filter; apply seq_NoDup].
+      intros a b Hab. apply nsd_name2_inj in Hab. lia.
+    - intros x Hx. apply in_map_iff in Hx. destruct Hx as [k [<- Hk]]. apply filter_In in Hk. destruct Hk as [Hs Hk].
+      apply in_seq in Hs. specialize (HN k). rewrite N.add_0_l in HN. destruct HN as [HN|HN]; [lia| |exact HN].
+      unfold inv in Hk. apply py_in_str_In in HN. rewrite HN in Hk. discriminate. }
+  pose proof (filter_split_length inv (seq 0 fuel)) as HS. fold A B in HS. rewrite seq_length in HS. lia.
 Qed.
 
-Lemma nnd_view (pm : pmap) n :
-  (N.of_nat (length pm) < nsd_bound)%N ->
-  exists p i, new_namespace_declaration pm n = Ok (dict_set n p pm) /\ p = nsd_name i /\ ~ In p (dict_values pm).
+Lemma nnd_view taken (pm : pmap) n :
+  (N.of_nat (length pm + length taken) < nsd_bound)%N ->
+  exists p i, new_namespace_declaration taken pm n = Ok (dict_set n p pm) /\ p = nsd_name i
+              /\ ~ In (nsd_name2 i) taken /\ ~ In p (dict_values pm).
 Proof.
   intros HB. unfold new_namespace_declaration.
-  destruct (nsd_loop_total (N.to_nat nsd_bound) (dict_values pm)) as [p Hp].
+  destruct (nsd_loop_total (N.to_nat nsd_bound) (dict_values pm) taken) as [p Hp].
   { unfold dict_values. rewrite map_length. lia. }
-  rewrite Hp. apply nsd_loop_view in Hp. destruct Hp as [Hn [j ->]].
-  exists (nsd_name j), j. repeat split. exact Hn.
+  rewrite Hp. apply nsd_loop_view in Hp. destruct Hp as [Hn [j [-> Hj]]].
+  exists (nsd_name j), j. repeat split; assumption.
 Qed.
 
 (* ---- the invariant ------------------------------------------------------------------------------ *)
 Section Collect.
   Variables (caller : caller_map) (data : dict str).
   Hypothesis NZ : normalized caller data.
-  Hypothesis GUARD : no_generated_like caller = true.
 
   Definition unprefixed (n : str) : Prop := lookup_prefix data n = None \/ lookup_prefix data n = Some [].
   Definition shape (n p : str) : Prop :=
     (p = [] /\ (n = [] \/ unprefixed n))
-    \/ (n <> [] /\ unprefixed n /\ exists i, p = nsd_name i)
+    \/ (n <> [] /\ unprefixed n /\ exists i, p = nsd_name i /\ ~ In (nsd_name2 i) (dict_keys data))
     \/ (n <> [] /\ exists q, q <> [] /\ lookup_prefix data n = Some q /\ p = q ++ [COLON]).
   Definition Inv (pm : pmap) : Prop :=
     NoDup (dict_keys pm) /\ NoDup (dict_values pm) /\ forall n p, In (n, p) pm -> shape n p.
-
-  Lemma table_not_gen_like :
-    forallb (fun kv => negb (gen_like (fst kv))) (global_namespaces ++ common_namespaces) = true.
-  Proof. vm_compute. reflexivity. Qed.
-
-  Lemma lookup_not_gen_like n q : lookup_prefix data n = Some q -> gen_like q = false.
-  Proof.
-    intros H. apply (lookup_prefix_iff _ _ _ _ NZ) in H. apply (nz_origin _ _ NZ) in H.
-    pose proof table_not_gen_like as T. rewrite forallb_forall in T.
-    destruct H as [H|[[k [Hin ->]]|H]].
-    - specialize (T (q, n) (in_or_app _ _ _ (or_introl H))). cbn in T. destruct (gen_like q); [discriminate | reflexivity].
-    - unfold no_generated_like in GUARD. rewrite forallb_forall in GUARD. specialize (GUARD _ Hin).
-      unfold caller_prefix in GUARD. cbn in GUARD. unfold norm_prefix.
-      destruct k; destruct (gen_like _); try discriminate; reflexivity.
-    - specialize (T (q, n) (in_or_app _ _ _ (or_intror H))). cbn in T. destruct (gen_like q); [discriminate | reflexivity].
-  Qed.
 
   Lemma Inv_add pm n p : Inv pm -> ~ In p (dict_values pm) -> shape n p -> Inv (dict_set n p pm).
   Proof.
@@ -123,13 +127,13 @@ Section Collect.
 
   Lemma shape_empty_prefix n : shape n [] -> n = [] \/ unprefixed n.
   Proof.
-    intros [[_ H]|[[_ [_ [i H]]]|[_ [q [_ [_ H]]]]]].
+    intros [[_ H]|[[_ [_ [i [H _]]]]|[_ [q [_ [_ H]]]]]].
     - exact H.
     - symmetry in H. apply nsd_name_nonempty in H. contradiction.
     - symmetry in H. apply app_eq_nil in H. destruct H as [_ H]. discriminate.
   Qed.
 
-  Lemma step_ok pm n : Inv pm -> (N.of_nat (length pm) < nsd_bound)%N ->
+  Lemma step_ok pm n : Inv pm -> (N.of_nat (length pm + length data) < nsd_bound)%N ->
     exists pm', collect_step data pm n = Ok pm' /\ Inv pm' /\ In n (dict_keys pm')
                 /\ (forall x, In x (dict_keys pm) -> In x (dict_keys pm'))
                 /\ (forall x, In x (dict_keys pm') -> x = n \/ In x (dict_keys pm)).
@@ -153,10 +157,11 @@ Section Collect.
       destruct n; [|discriminate]. unfold redeclare_empty_prefix.
       destruct (find (fun kv => null (snd kv)) pm) as [[other p0]|] eqn:EF.
       + apply find_some in EF. destruct EF as [Hin Hnull]. cbn in Hnull. destruct p0; [|discriminate].
-        destruct (nnd_view pm other HB) as [p [i [-> [-> Hp]]]]. cbn [bind].
+        assert (HB' : (N.of_nat (length pm + length (dict_keys data)) < nsd_bound)%N) by (unfold dict_keys; rewrite map_length; exact HB).
+        destruct (nnd_view (dict_keys data) pm other HB') as [p [i [-> [-> [Hi Hp]]]]]. cbn [bind].
         assert (Hother : other <> []) by (intros ->; apply EH; eapply In_keys; exact Hin).
         assert (Hshape : shape other (nsd_name i)).
-        { right. left. split; [exact Hother|]. split; [|exists i; reflexivity].
+        { right. left. split; [exact Hother|]. split; [|exists i; split; [reflexivity | exact Hi]].
           destruct (shape_empty_prefix _ (I3 _ _ Hin)); [contradiction | assumption]. }
         pose proof (Inv_add pm other (nsd_name i) (conj I1 (conj I2 I3)) Hp Hshape) as HI1.
         pose proof HI1 as HI1'.
@@ -176,13 +181,14 @@ Section Collect.
         apply Inv_add; [exact (conj I1 (conj I2 I3)) | | left; split; [reflexivity | left; reflexivity]].
         intros H. apply In_values_ex in H. destruct H as [x H]. pose proof (find_none _ _ EF _ H) as Hn. discriminate.
     - assert (Hn : n <> []) by (intros ->; discriminate).
+      assert (HB' : (N.of_nat (length pm + length (dict_keys data)) < nsd_bound)%N) by (unfold dict_keys; rewrite map_length; exact HB).
       destruct (lookup_prefix data n) as [q|] eqn:EL.
       + destruct (null q && py_in_str [] (dict_values pm))%bool eqn:E1.
         * apply andb_prop in E1. destruct E1 as [Eq _]. destruct q; [|discriminate].
-          destruct (nnd_view pm n HB) as [p [i [-> [-> Hp]]]].
+          destruct (nnd_view (dict_keys data) pm n HB') as [p [i [-> [-> [Hi Hp]]]]].
           eexists. split; [reflexivity|]. split; [|apply KEYS; auto].
           apply Inv_add; [exact (conj I1 (conj I2 I3)) | exact Hp|].
-          right. left. split; [exact Hn|]. split; [right; exact EL | exists i; reflexivity].
+          right. left. split; [exact Hn|]. split; [right; exact EL | exists i; split; [reflexivity | exact Hi]].
         * destruct (null q) eqn:Eq; cbn [negb].
           -- destruct q; [|discriminate]. cbn [andb] in E1. rewrite E1.
              eexists. split; [reflexivity|]. split; [|apply KEYS; auto].
@@ -192,19 +198,20 @@ Section Collect.
              destruct (py_in_str (q ++ [COLON]) (dict_values pm)) eqn:EA.
              ++ (* the assertion cannot fail: the prefix would be a generated one or belong to a namespace already met *)
                 exfalso. apply py_in_str_In in EA. apply In_values_ex in EA. destruct EA as [n' Hin'].
-                destruct (I3 _ _ Hin') as [[H _]|[[_ [_ [i H]]]|[_ [q' [_ [HL H]]]]]].
+                destruct (I3 _ _ Hin') as [[H _]|[[_ [_ [i [H Hi]]]]|[_ [q' [_ [HL H]]]]]].
                 ** apply app_eq_nil in H. destruct H as [_ H]. discriminate.
-                ** symmetry in H. apply nsd_name_gen_like in H. rewrite (lookup_not_gen_like _ _ EL) in H. discriminate.
+                ** rewrite nsd_name_name2 in H. apply app_inj_tail in H. destruct H as [H _]. apply Hi. rewrite <- H.
+                   apply (lookup_prefix_iff _ _ _ _ NZ) in EL. eapply In_keys. exact EL.
                 ** apply app_inj_tail in H. destruct H as [<- _].
                    assert (n = n') by (eapply lookup_prefix_inj; eassumption). subst n'.
                    apply EH. eapply In_keys. exact Hin'.
              ++ eexists. split; [reflexivity|]. split; [|apply KEYS; auto].
                 apply Inv_add; [exact (conj I1 (conj I2 I3)) | apply py_in_str_nIn; exact EA|].
                 right. right. split; [exact Hn|]. exists q. repeat split; assumption.
-      + destruct (nnd_view pm n HB) as [p [i [-> [-> Hp]]]].
+      + destruct (nnd_view (dict_keys data) pm n HB') as [p [i [-> [-> [Hi Hp]]]]].
         eexists. split; [reflexivity|]. split; [|apply KEYS; auto].
         apply Inv_add; [exact (conj I1 (conj I2 I3)) | exact Hp|].
-        right. left. split; [exact Hn|]. split; [left; exact EL | exists i; reflexivity].
+        right. left. split; [exact Hn|]. split; [left; exact EL | exists i; split; [reflexivity | exact Hi]].
   Qed.
 End Collect.
 
@@ -233,10 +240,9 @@ Qed.
 Section Clauses.
   Variables (caller : caller_map) (data : dict str).
   Hypothesis NZ : normalized caller data.
-  Hypothesis GUARD : no_generated_like caller = true.
   Hypothesis KD : caller_keys_distinct caller.
 
-  Lemma loop_ok U : NoDup U -> (N.of_nat (length U) < nsd_bound)%N ->
+  Lemma loop_ok U : NoDup U -> (N.of_nat (length U + length data) < nsd_bound)%N ->
     forall nss pm, Inv data pm -> incl (dict_keys pm) U -> incl nss U ->
     exists pm', collect_loop data pm nss = Ok pm' /\ Inv data pm'
                 /\ (forall x, In x nss -> In x (dict_keys pm'))
@@ -244,10 +250,10 @@ Section Clauses.
   Proof.
     intros NDU HB. induction nss as [|n r IH]; cbn [collect_loop]; intros pm HI HK HN.
     - exists pm. split; [reflexivity|]. split; [exact HI|]. split; [intros x []|auto].
-    - assert (HL : (N.of_nat (length pm) < nsd_bound)%N).
+    - assert (HL : (N.of_nat (length pm + length data) < nsd_bound)%N).
       { destruct HI as [K1 _]. pose proof (NoDup_incl_length K1 HK) as H. unfold dict_keys in H.
         rewrite map_length in H. lia. }
-      destruct (step_ok caller data NZ GUARD pm n HI HL) as [pm1 [E [HI1 [Hn [K1 K2]]]]].
+      destruct (step_ok caller data NZ pm n HI HL) as [pm1 [E [HI1 [Hn [K1 K2]]]]].
       rewrite E. cbn [bind].
       destruct (IH pm1 HI1) as [pm' [E' [HI' [C1 C2]]]].
       + intros x Hx. destruct (K2 _ Hx) as [->|Hx']; [apply HN; left; reflexivity | apply HK; exact Hx'].
@@ -275,7 +281,7 @@ Section Clauses.
     Inv data pm -> In (n, p) pm -> (p = g ++ [COLON] <-> n = gn).
   Proof.
     intros HG Hgn Hg Hnsd [_ [_ I3]] Hin. pose proof (lookup_global _ _ HG) as LG. specialize (I3 _ _ Hin). split.
-    - intros ->. destruct I3 as [[H _]|[[_ [_ [i H]]]|[_ [q [_ [HL H]]]]]].
+    - intros ->. destruct I3 as [[H _]|[[_ [_ [i [H _]]]]|[_ [q [_ [HL H]]]]]].
       + apply app_eq_nil in H. destruct H as [_ H]. discriminate.
       + symmetry in H. apply Hnsd in H. contradiction.
       + apply app_inj_tail in H. destruct H as [<- _]. eapply lookup_prefix_inj; eassumption.
@@ -283,7 +289,7 @@ Section Clauses.
   Qed.
 
   Theorem collect_clauses root_ns nss :
-    (N.of_nat (length (dedup (root_ns :: nss))) < nsd_bound)%N ->
+    (N.of_nat (length (dedup (root_ns :: nss)) + length data) < nsd_bound)%N ->
     exists pm, collect_from data root_ns nss = Ok pm /\ Inv data pm /\ c13_clauses caller nss pm.
   Proof.
     intros HB. unfold collect_from.
@@ -373,16 +379,18 @@ Proof.
 Qed.
 
 Theorem collect_tree_clauses t caller ord :
-  is_tag t = true -> valid_caller caller -> no_generated_like caller = true ->
-  order_ok (bfs_of t) ord -> (N.of_nat (n_namespaces t) < 2 ^ 16)%N ->
+  is_tag t = true -> valid_caller caller ->
+  order_ok (bfs_of t) ord -> (N.of_nat (n_namespaces t + length caller + 17) < 2 ^ 16)%N ->
   exists data pm, normalize caller = Ok data /\ collect caller (root_ns_of t) ord = Ok pm
                   /\ Inv data pm /\ c13_clauses caller (tree_nss t) pm.
 Proof.
-  intros HT [KD [data EN]] GUARD HO HB.
+  intros HT [KD [data EN]] HO HB.
   pose proof (normalize_ok _ _ EN) as NZ.
   pose proof (order_ok_same_set _ _ HO) as SAME. fold (tree_nss t) in SAME.
-  destruct (collect_clauses caller data NZ GUARD KD (root_ns_of t) (concat ord)) as [pm [E [HI HC]]].
-  { replace (length (dedup (root_ns_of t :: concat ord))) with (n_namespaces t); [exact HB|].
+  destruct (collect_clauses caller data NZ KD (root_ns_of t) (concat ord)) as [pm [E [HI HC]]].
+  { pose proof (normalize_length _ _ EN) as HLen.
+    replace (length (dedup (root_ns_of t :: concat ord))) with (n_namespaces t);
+      [change nsd_bound with (2 ^ 16)%N; lia|].
     unfold n_namespaces. apply dedup_length_same_set. intros x. cbn. rewrite SAME.
     pose proof (root_ns_in_tree_nss t HT). split; [auto | intros [<-|H']; assumption]. }
   exists data, pm. split; [exact EN|]. split; [unfold collect; rewrite EN; exact E|]. split; [exact HI|].
@@ -417,7 +425,7 @@ Lemma prefix_shape caller data (pm : pmap) :
   forall n p, In (n, p) pm -> p = [] \/ exists q, p = q ++ [COLON] /\ q <> [] /\ colon_free q.
 Proof.
   intros NZ CF [_ [_ I3]] n p Hin.
-  destruct (I3 _ _ Hin) as [[-> _]|[[_ [_ [i ->]]]|[_ [q [Hq [HL ->]]]]]]; [left; reflexivity | right | right].
+  destruct (I3 _ _ Hin) as [[-> _]|[[_ [_ [i [-> _]]]]|[_ [q [Hq [HL ->]]]]]]; [left; reflexivity | right | right].
   - exists (NS_ ++ py_str_of_N i). split; [apply nsd_name_eq|]. split; [discriminate|].
     intros H. apply in_app_or in H. destruct H as [H|H].
     + cbn in H. intuition discriminate.
